@@ -16,6 +16,7 @@ to the runtime's own table (runtime.CallersFrames), every returned variable addr
 import json
 import os
 import shutil
+import subprocess
 import time
 
 from vlib import common as C
@@ -26,7 +27,7 @@ META = {
     'technique': 'Lean 4 theorems over a model of unexports2 symbol lookup (all tables, names, 64-bit biases, call histories) + differential run of the real package against the model on every symbol of test binaries built in several link modes and patched variants, with a runtime-table / &v oracle',
     'level': 'proof',
     'level_text': 'Partial: proved for every table, name, bias and call history that a lookup returns an address iff the table has an entry with exactly that name (first wins) and then its table address plus the slide recovered from the anchor, that absent names and every kind of unreadable table (no .gopclntab as in PIE, no .text, not ELF, bad pclntab; no ELF symbols for variables) give an error for every call, and that results do not depend on earlier calls. That the loader maps every other symbol with the same bias as the anchor is assumed, and checked on every symbol of the built binaries.',
-    'level_note': 'Trusted: Lean kernel (axioms propext, Classical.choice, Quot.sound at most); the linker/loader contract (one bias for all functions, one for all data symbols; pclntab entry = runtime.text-relative offset); debug/elf and debug/gosym parse the file as the check\'s own independent reader does (differentially checked on every run); the hand model Model/Sym.lean (differentially checked on every query). Not covered: darwin/windows readers (cannot run here), pclntab names that occur more than once (first wins; counted), concurrent first calls.',
+    'level_note': 'Trusted: Lean kernel (axioms propext, Classical.choice, Quot.sound at most); the linker/loader contract (one bias for all functions, one for all data symbols; pclntab entry = runtime.text-relative offset); debug/elf and debug/gosym parse the file as the check\'s own independent reader does (differentially checked on every run); the hand model Model/Sym.lean (differentially checked on every query). Not covered: darwin/windows readers (cannot run here), pclntab names that occur more than once (first wins; counted). Concurrent callers: proved for every schedule of whole calls (conc_any_schedule); that sync.Once makes a call atomic with respect to the alignment state is trusted and observed by the concurrent-first-use lane (goroutines released from a barrier in fresh processes of slid executables — a test, not a proof). Executable file deleted/replaced before first use: required behaviour (error) proved as exe_gone_is_error and observed in child processes; replacement by a DIFFERENT binary at the same path is not exercised.',
 }
 
 PKG = 'github.com/tencent/goom/internal/unexports2'
@@ -186,7 +187,7 @@ def apply_variant(e, spec, comp):
 
 
 def describe_tokens(desc, facts):
-    t = [f'mf={facts["mf"]:#x}', f'mv={facts["mv"]:#x}', 'af=' + esc(AF), 'av=' + esc(AV), 'elf=ok' if desc.get('elf', True) else 'elf=bad',
+    t = [f'mf={facts["mf"]:#x}', f'mv={facts["mv"]:#x}', 'af=' + esc(AF), 'av=' + esc(AV), ('elf=noopen' if desc.get('open') is False else 'elf=ok' if desc.get('elf', True) else 'elf=bad'),
          'text=-' if desc['text'] is None else f'text={desc["text"]:#x}']
     if desc['pcln'] is None:
         t.append('pcln=-')
@@ -333,14 +334,34 @@ def make_api_queries(desc, comp, rng, nfun, nmiss):
 
 # ------------------------------------------------------------------ running
 
-def run_binary(binary, test, ops_line, tag):
+def run_binary(binary, test, ops_line, tag, launch=None):
+    """One process.  launch: {'self': delete|chmod000|replace-same, 'argv0': text, 'path_dir': dir put in front of PATH}:
+    the executable is first copied to a directory of its own (the child damages its own file), and started with that argv[0]."""
     ops_path = os.path.join(WORK, tag + '.ops')
     out_path = os.path.join(WORK, tag + '.impl')
     open(ops_path, 'w').write(ops_line + '\n')
-    for p in (out_path, out_path + '.rt'):
+    for p in (out_path, out_path + '.rt', out_path + '.self'):
         if os.path.exists(p):
             os.remove(p)
-    rc, log = C.run_probe(binary, test, ops_path, out_path, timeout=1500, cwd=WORK)
+    if not launch:
+        rc, log = C.run_probe(binary, test, ops_path, out_path, timeout=1500, cwd=WORK)
+    else:
+        d = os.path.join(WORK, 'self', tag)
+        shutil.rmtree(d, ignore_errors=True)
+        os.makedirs(d)
+        prog = os.path.join(d, 'prog.test')
+        shutil.copy(binary, prog)
+        os.chmod(prog, 0o755)
+        env = C.goenv({'VERIF_OPS': ops_path, 'VERIF_OUT': out_path, 'VERIF_SEED': str(C.seed()), 'VERIF_C10_SELF': launch['self']})
+        if launch.get('path_dir'):
+            env['PATH'] = launch['path_dir'] + os.pathsep + env.get('PATH', '')
+        try:
+            pr = subprocess.run([launch['argv0'], '-test.run', '^' + test + '$', '-test.count=1', '-test.timeout', '600s'], executable=prog,
+                                env=env, cwd=d, capture_output=True, text=True, timeout=700)
+            rc, log = pr.returncode, pr.stdout + pr.stderr
+        except subprocess.TimeoutExpired:
+            rc, log = -1, 'timeout'
+        shutil.rmtree(d, ignore_errors=True)
     obs = C.read_indexed(out_path, 1)[0]
     rt = C.read_indexed(out_path + '.rt', 1)[0]
     return rc, log, obs, rt
@@ -363,7 +384,7 @@ def oracle(case, q, obs, rt):
     else:
         kind, name = q[0], q[2:]
     d = case['desc']
-    readable = d.get('elf', True) and d['text'] is not None and d['pcln'] not in (None, 'bad')
+    readable = d.get('open', True) and d.get('elf', True) and d['text'] is not None and d['pcln'] not in (None, 'bad')
     if obs is None:
         return 'no observation (process died?)'
     if obs.startswith('panic') or obs in ('bad-query', 'err-with-addr'):
@@ -402,9 +423,10 @@ def oracle(case, q, obs, rt):
 
 def run_case(case, exe):
     """Runs one history in the real process and the model; fills case['impl'], case['rt'], case['model']."""
-    toks = ['c10.hist', case['id']] + describe_tokens(case['desc'], case['facts']) + [f'q={len(case["queries"])}'] + [q for q, _ in case['queries']]
+    head = ['c10.conc', case['id'], f'g={case["g"]}'] if case.get('g') else ['c10.hist', case['id']]
+    toks = head + describe_tokens(case['desc'], case['facts']) + [f'q={len(case["queries"])}'] + [q for q, _ in case['queries']]
     line = ' '.join(toks)
-    rc, log, obs, rt = run_binary(case['binary'], case.get('test', 'TestVerifC10'), line, case['id'])
+    rc, log, obs, rt = run_binary(case['binary'], case.get('test', 'TestVerifC10'), line, case['id'], case.get('launch'))
     n = len(case['queries'])
     case['impl'] = obs.split(' ') if obs else [None] * n
     case['rt'] = rt.split(' ') if rt else ['-'] * n
@@ -413,6 +435,12 @@ def run_case(case, exe):
     if len(case['rt']) != n:
         case['rt'] = (case['rt'] + ['-'] * n)[:n]
     case['rc'], case['log'] = rc, log[-1500:]
+    if case.get('launch'):
+        sp = os.path.join(WORK, case['id'] + '.impl.self')
+        said = open(sp).read().split() if os.path.exists(sp) else []
+        want = 'open=ok' if case['desc'].get('open', True) else 'open=fail'
+        if want not in said:
+            raise C.Infra(f'{case["id"]}: the child reports {said} about its own executable, the check expected {want}')
     if exe:
         ops_path = os.path.join(WORK, case['id'] + '.ops')
         m = C.run_driver(exe, ops_path, os.path.join(WORK, case['id'] + '.model'))
@@ -481,6 +509,82 @@ def prepare_api(tier, seed_, only=None):
     return cases
 
 
+def small_queries(case, comp, r, k, miss):
+    """k lookups of names that exist (functions, exposes, variables in turn) plus a few near-misses, in random order after
+    the first len(kinds) ones"""
+    fnl = list(case['fnames_raw']) or [x.encode() for x in comp['funcs']]
+    syl = [n for n, _ in (case['desc']['syms'] or [])] or [x.encode() for x in comp['vars']]
+    gen_f = [x.encode() for x in comp['funcs']]
+    gen_v = [x.encode() for x in comp['vars']]
+    q = []
+    for i in range(k):
+        m = i % 4
+        if m == 0:
+            q.append(('f:' + esc(fnl[r.below(len(fnl))]), 'func'))
+        elif m == 1:
+            q.append(('x:' + esc(fnl[r.below(len(fnl))]), 'expose'))
+        elif m == 2:
+            src = gen_v if r.below(2) else syl
+            q.append(('v:' + esc(src[r.below(len(src))]), 'sym'))
+        else:
+            q.append(('f:' + esc(gen_f[r.below(len(gen_f))]), 'func'))
+    for _ in range(miss):
+        kind, mname = near_miss(fnl[r.below(len(fnl))], r)
+        q.insert(r.below(len(q) + 1) if len(q) > 16 else len(q), (r.choice(['f:', 'v:', 'x:']) + esc(mname), 'miss-' + kind))
+    return q
+
+
+def conc_histories(cases, comp, rng, tier):
+    """Concurrent first use: N goroutines released from a spin barrier, each doing its first lookup, on executables whose
+    slide is not zero (there a lookup that overtakes the once-only initialisation is visibly wrong); fresh process each."""
+    plan = {'ext.as-linked': ((2, 4, 8, 16), 3 if tier == 'quick' else 12), 'sym.text-slide0x1000': ((4, 16), 2 if tier == 'quick' else 8),
+            'sym.both-slides': ((3, 16), 1 if tier == 'quick' else 8)}
+    hs = []
+    for case in cases:
+        if case['id'] not in plan:
+            continue
+        for n in plan[case['id']][0]:
+            for rep in range(plan[case['id']][1]):
+                h = dict(case)
+                h['id'] = f'{case["id"]}.conc{n}.{rep}'
+                h['g'] = n
+                h['queries'] = small_queries(case, comp, rng.fork('q-' + h['id']), 6 * n, n // 2)
+                hs.append(h)
+    return hs
+
+
+def self_histories(cases, comp, rng, tier):
+    """Executable unreadable: the child deletes / chmods / rewrites its own executable file before its first lookup and runs
+    under an argv[0] naming another Go binary (absolute, or a bare name found through PATH) or garbage.  Deleted: the table
+    cannot be read, every lookup must be an error; still readable (chmod as root, same bytes rewritten): exact answers."""
+    by_id = {c['id']: c for c in cases}
+    hs = []
+    gotool = os.path.join(C.goroot(), 'bin', 'go')
+    pdir = os.path.join(WORK, 'pathdir')
+    for cid, other in (('ext.as-linked', 'sym.as-linked'), ('sym.as-linked', 'ext.as-linked')):
+        if cid not in by_id or other not in by_id:
+            continue
+        case, ob = by_id[cid], by_id[other]['binary']
+        shutil.rmtree(pdir, ignore_errors=True) if cid == 'ext.as-linked' else None
+        os.makedirs(pdir, exist_ok=True)
+        link = os.path.join(pdir, 'zzc10tool-' + cid)
+        if not os.path.exists(link):
+            os.symlink(ob, link)
+        root = os.geteuid() == 0
+        plans = [('delete', ob, None, False), ('delete', 'zzc10tool-' + cid, pdir, False), ('delete', '/no/such/dir/zz garbage', None, False),
+                 ('delete', gotool, None, False), ('chmod000', ob, None, root), ('replace-same', ob, None, True)]
+        if tier == 'quick' and cid == 'sym.as-linked':
+            plans = plans[:2]
+        for k, (act, argv0, pd, openable) in enumerate(plans):
+            h = dict(case)
+            h['id'] = f'{cid}.self-{act}.{k}'
+            h['launch'] = {'self': act, 'argv0': argv0, 'path_dir': pd}
+            h['desc'] = dict(case['desc'], open=openable)
+            h['queries'] = small_queries(case, comp, rng.fork('q-' + h['id']), 240 if tier == 'quick' else 2000, 20)
+            hs.append(h)
+    return hs
+
+
 def run(tier):
     out = C.Outcome('C10', tier)
     rng = C.Rng(C.seed()).fork('C10')
@@ -508,6 +612,7 @@ def run(tier):
             h2['queries'] = [('x:' + esc(n), 'expose-first') for n in pick] + [('f:' + esc(n), 'func') for n in pick] + \
                             [('x:' + esc(n), 'expose') for n in pick] + [('v:' + esc(AV.encode()), 'sym')]
             hist.append(h2)
+    hist += conc_histories(cases, comp, rng, tier) + self_histories(cases, comp, rng, tier)
     for case in prepare_api(tier, C.seed()):
         cases.append(case)
         h = dict(case)
@@ -559,7 +664,7 @@ def run(tier):
         if k in seen or len(seen) >= 4:
             continue
         seen.add(k)
-        out.violation(f'[{case["id"]}] {q}: {why}', replay_body(case, comp_spec, [q], i, why))
+        out.violation(f'[{case["id"]}] {q}: {why}', replay_body(case, comp_spec, [x for x, _ in case['queries']] if case.get('g') else [q], i, why))
     if not bad:
         if diffs:
             case, i, o, m = diffs[0]
@@ -589,7 +694,8 @@ def run(tier):
                          'linker/loader: one bias for all functions and one for all data symbols; pclntab offsets relative to runtime.text (assumed in the theorems as `Loaded`, observed on every symbol below)',
                          'checks/c10elf.py (independent ELF/pclntab reader producing the model input) and the model Model/Sym.lean: compared with the real package on every query',
                          'runtime.CallersFrames / &v as the ground truth of the oracle',
-                         'not covered: symbols_darwin.go, symbols_windows.go (not executable here); concurrent first use'],
+                         'sync.Once (calls are atomic w.r.t. the alignment state): trusted in conc_any_schedule, observed by the concurrent-first-use lane',
+                         'not covered: symbols_darwin.go, symbols_windows.go (not executable here)'],
         'theorems': proof['axioms'], 'proof_failures': proof['failed'],
         'evaluations': total, 'distinct_nontrivial': len(distinct), 'traces_validated_against_impl': agreed,
         'rule': 'one evaluation = one lookup call (FindFuncByName / FindVarByName / ExposeFunction) in a real process of one executable; '
@@ -607,7 +713,7 @@ def run(tier):
 
 
 def replay_body(case, comp_spec, queries, i, why):
-    return {'kind': 'impl-oracle', 'mode': case['mode']['name'], 'variant': case['variant'], 'variant_spec': case['spec'], 'api': bool(case.get('api')), 'companion': comp_spec, 'queries': queries,
+    return {'kind': 'impl-oracle', 'mode': case['mode']['name'], 'variant': case['variant'], 'variant_spec': case['spec'], 'api': bool(case.get('api')), 'g': case.get('g'), 'launch': case.get('launch'), 'open': case['desc'].get('open', True), 'companion': comp_spec, 'queries': queries,
             'observed': case['impl'][i] if i >= 0 else None, 'runtime_says': case['rt'][i] if i >= 0 else None,
             'model': (case['model'][i] if case['model'] and i >= 0 else None), 'why': why,
             'build_args': case['mode']['args'], 'how': 'python3 check.py C10 --replay <this file>   (rebuilds that link mode, re-derives the variant, runs the queries in a fresh process)'}
@@ -629,12 +735,38 @@ def replay(body):
         return 2
     case = cases[0]
     case['queries'] = [(q, 'replay') for q in body['queries']]
-    run_case(case, exe)
+    if body.get('g'):
+        case['g'] = body['g']
+        case['id'] += f'.conc{body["g"]}'
+    if body.get('launch'):
+        case['launch'] = body['launch']
+        case['desc'] = dict(case['desc'], open=body.get('open', True))
+        case['id'] += '.self-' + body['launch']['self']
+        # the other Go binary argv[0] names (another link mode of the same probe) must exist for the replay too
+        la = body['launch']
+        other = 'sym' if body['mode'] != 'sym' else 'ext'
+        ob = os.path.join(WORK, f'c10-{other}.test')
+        if not os.path.exists(ob) and (la['argv0'] == ob or la.get('path_dir')):
+            build(next(m for m in link_modes('thorough') if m['name'] == other), os.path.join(WORK, 'zz_gen_test.go'))
+        if la.get('path_dir'):
+            os.makedirs(la['path_dir'], exist_ok=True)
+            link = os.path.join(la['path_dir'], la['argv0'])
+            if not os.path.lexists(link):
+                os.symlink(ob, link)
     rc = 0
-    for i, (q, _) in enumerate(case['queries']):
-        why = oracle(case, q, case['impl'][i], case['rt'][i])
-        m = case['model'][i] if case['model'] else None
-        print(f'[{case["id"]}] {q}\n  impl   : {case["impl"][i]}\n  runtime: {case["rt"][i]}\n  model  : {m}\n  oracle : {why or "ok"}')
-        if why or (m is not None and m != case['impl'][i]):
-            rc = 1
+    for attempt in range(40 if body.get('g') else 1):      # a race: repeat fresh processes until it shows
+        run_case(case, exe)
+        lines = []
+        for i, (q, _) in enumerate(case['queries']):
+            why = oracle(case, q, case['impl'][i], case['rt'][i])
+            m = case['model'][i] if case['model'] else None
+            if why or (m is not None and m != case['impl'][i]):
+                rc = 1
+            if why or not body.get('g'):
+                lines.append(f'[{case["id"]}] {q}\n  impl   : {case["impl"][i]}\n  runtime: {case["rt"][i]}\n  model  : {m}\n  oracle : {why or "ok"}')
+        if rc or not body.get('g'):
+            print('\n'.join(lines))
+            break
+    if body.get('g'):
+        print(f'{"reproduced" if rc else "not reproduced"} after {attempt + 1} fresh process(es) with {body["g"]} goroutines')
     return rc
